@@ -14,7 +14,7 @@ use vpmodel::spec::ChainSpec;
 pub const DEF: PropDef = PropDef {
     id: "C01",
     level: "exploration",
-    rule: "generated chains (8 coins, 1..6 blocks, tx/input/output counts and script/witness lengths drawn from CompactSize boundary classes, legacy and BIP144 txs, arbitrary u32/u64 fields, --verify on/off) written as a data directory; csvdump output compared byte-for-byte with the reference rendering. Non-trivial = >=2 blocks and (a count or length equal to 0xfc/0xfd/0xffff/0x10000, or a segwit tx, or a tx with >=2 inputs and >=2 outputs); distinct by hash of the case.",
+    rule: "generated chains (8 coins, 1..6 blocks, tx/input/output counts and script/witness lengths drawn from CompactSize boundary classes, legacy and BIP144 txs, arbitrary u32/u64 fields, --verify on/off) written as a data directory, plus one fixed chain with a transaction of 0x10001 inputs and 66 000 outputs; csvdump output compared byte-for-byte with the reference rendering. Non-trivial = >=2 blocks and (a count or length equal to 0xfc/0xfd/0xffff/0x10000, or a segwit tx, or a tx with >=2 inputs and >=2 outputs); distinct by hash of the case.",
     assumptions: &["canonical CompactSize encodings only (non-canonical ones cannot occur in accepted blocks)", "SHA-256 compression function of bitcoin_hashes is shared with the tool (cross-checked against fixed vectors at start-up)", "single-file layout (layouts are C03's subject)"],
     run,
     replay,
@@ -96,11 +96,19 @@ fn run(eng: &Engine, a: &Args) {
     let n = if a.tier == Tier::Quick { 400 } else { 6000 };
     let tier = a.tier;
     eng.explore("csvdump-vs-model", scaled(n, a), move || strategy(tier), check);
+    // fixed wide cases: one transaction with 66 000 outputs / 0x10001 inputs (indices and counts beyond 16 bits)
+    let scripts: Vec<Vec<u8>> = (0..66_100usize).map(|i| vec![0x51 + (i % 16) as u8, (i & 0xff) as u8, (i >> 8) as u8]).collect();
+    let mut wide = vpmodel::spec::chain_from_scripts(vpmodel::chain::Coin::Litecoin, &scripts, &[1, 2, 3], 66_000, 2, 0, 1_400_000_000);
+    if let Some(t) = wide.blocks[0].txs.first_mut() {
+        let proto = t.inputs[0].clone();
+        t.inputs = (0..0x10001u32).map(|k| { let mut i = proto.clone(); i.src = vpmodel::spec::Src::Unknown((k & 0xff) as u8, k); i.sequence = k; i }).collect();
+    }
+    eng.enumerate("wide-transaction", vec![Case { chain: wide, verify: false }], check);
 }
 
 fn replay(part: &str, case: serde_json::Value) -> Option<Verdict> {
     match part {
-        "csvdump-vs-model" => Some(check(&serde_json::from_value(case).ok()?)),
+        "csvdump-vs-model" | "wide-transaction" => Some(check(&serde_json::from_value(case).ok()?)),
         _ => None,
     }
 }
